@@ -63,7 +63,7 @@ func seqTail(target string, cur int) []opSpec {
 }
 
 func sweepSeq(r *h.Run) {
-	faultKinds := []string{"err", "short", "crash", "crashshort", "shortnil", "silent", "closelost", "ctx"}
+	faultKinds := []string{"err", "short", "crash", "crashshort", "shortnil", "silent", "closelost", "ctx", "rderr"}
 	group := 0
 	for _, kind := range []string{"mutable", "immutable"} {
 		for nh := 0; nh <= 2; nh++ {
@@ -103,11 +103,24 @@ func sweepSeq(r *h.Run) {
 							continue
 						}
 						// quick tier: every operation on the remote entry; a seeded eighth of the purely local ones (half of them for the write-specific faults)
+						if fk == "rderr" { // a read-side operation fails with another error VALUE: ENOENT (twice as often), EACCES, broken listing
+							switch tr.Name {
+							case "Stat", "Lstat", "Open", "f.Read", "f.Readdirnames", "f.Readdir":
+							default:
+								continue
+							}
+							fk = []string{"enoent", "eacces", "enoent", "partiallist"}[(k/3+int(r.Seed))%4]
+							if fk == "partiallist" && tr.Name != "f.Readdirnames" && tr.Name != "f.Readdir" {
+								fk = "enoent"
+							}
+						}
 						if fk == "ctx" { // the caller's context ends inside operation k: cancelled / timed out, alternating
 							fk = []string{"ctxcancel", "ctxdeadline"}[(k/7+int(r.Seed))%2]
 						}
 						thin := 8
-						if strings.HasPrefix(fk, "ctx") {
+						if fk == "enoent" || fk == "eacces" || fk == "partiallist" {
+							thin = 8
+						} else if strings.HasPrefix(fk, "ctx") {
 							thin = 8
 							if target == "store" {
 								thin = 10
@@ -115,10 +128,17 @@ func sweepSeq(r *h.Run) {
 						} else if fk != "err" && fk != "crash" {
 							thin = 2 // the faults specific to writes have few candidates
 						}
+						if remote && (fk == "enoent" || fk == "eacces" || fk == "partiallist") && !r.Thorough() && !r.Deep && (k+int(r.Seed))%2 != 0 {
+							continue // quick tier: every second read-side operation on the remote entry
+						}
 						if remote && strings.HasPrefix(fk, "ctx") && !r.Thorough() && !r.Deep && (k+int(r.Seed))%3 != 0 {
 							continue // quick tier: the context ends inside every third operation on the remote entry
 						}
-						if !remote && fk != "closelost" && !r.Thorough() && !r.Deep && (k+fi+int(r.Seed))%thin != 0 {
+						// the walk over the SOURCE tree (what Store reads decides what the stored version is): never thinned for the
+						// read-error values
+						srcWalk := target == "store" && pathClass(tr.Path) == "source" && tr.Name != "f.Read" &&
+							(fk == "enoent" || fk == "eacces" || fk == "partiallist")
+						if !remote && !srcWalk && fk != "closelost" && !r.Thorough() && !r.Deep && (k+fi+int(r.Seed))%thin != 0 {
 							continue
 						}
 						f := &faultSpec{K: k, Kind: fk}
